@@ -192,12 +192,7 @@ def extra(ctx):
 
 # ----------------------------------------------------------------------------- impl / model / oracle
 
-def run_impl(case):
-  import threading
-  obs = c08.run_impl(case)
-  if case.get('threads'):
-    obs['threads_alive'] = sum(1 for t in threading.enumerate() if t.name.startswith('multiplex_pool') and t.is_alive())
-  return obs
+run_impl = c08.run_impl
 
 
 model_requests = c08.model_requests
@@ -238,7 +233,7 @@ def oracle(case, obs):
 
 
 def nontrivial(case, obs):
-  if obs.get('build') is not None or obs.get('out') is None:
+  if obs.get('build') is not None or obs.get('out') is None or obs.get('hang'):
     return False
   return n_failing(case) >= 1 and (len(obs['out']) >= 1 or bool(case.get('ignore')))
 
